@@ -36,6 +36,7 @@ type Spec struct {
 	EVM     bool     // precompile entry points (crossChain from ERC-20, cancel, increase fee)
 	MaxSend int      // max pool transfers ever created
 	Params  bool     // C06: parameter changes
+	Focus   string   // "batches": narrowed alphabet (one sender, two fee shapes, owner cancel, plain batch requests) for deeper batch life-cycle histories
 
 	w       *world.World
 	os      map[string][]scen.Oracle
@@ -47,7 +48,7 @@ type Spec struct {
 }
 
 func (s *Spec) Name() string {
-	return fmt.Sprintf("bridge/%s/%s/%s/calls=%v/in=%v/evm=%v/ext=%v/max=%d", s.Prop, strings.Join(s.Chains, "+"), strings.Join(s.Tokens, "+"), s.Calls, s.Inbound, s.EVM, s.ExtSim, s.MaxSend)
+	return fmt.Sprintf("bridge/%s/%s/%s/calls=%v/in=%v/evm=%v/ext=%v/max=%d/focus=%s", s.Prop, strings.Join(s.Chains, "+"), strings.Join(s.Tokens, "+"), s.Calls, s.Inbound, s.EVM, s.ExtSim, s.MaxSend, s.Focus)
 }
 
 // ---------------------------------------------------------------- model
@@ -263,8 +264,9 @@ func (s *Spec) Ops(st *explore.State) []explore.Op {
 	ch0 := s.Chains[0]
 	users := []string{"u1", "u2"}
 
+	focus := s.Focus == "batches"
 	// deposits (one observed event each)
-	if !s.ExtSim && s.Ledger {
+	if !s.ExtSim && s.Ledger && !focus {
 		for _, ch := range s.Chains {
 			for _, t := range s.Tokens {
 				ch, t := ch, t
@@ -302,7 +304,7 @@ func (s *Spec) Ops(st *explore.State) []explore.Op {
 			for _, t := range s.Tokens {
 				for _, af := range [][2]int64{{2, 1}, {1, 2}} {
 					u, t, amt, fee := u, t, af[0], af[1]
-					if u == "u2" && (amt != 2 || t != s.Tokens[0]) {
+					if u == "u2" && (focus || amt != 2 || t != s.Tokens[0]) {
 						continue // second sender: one shape is enough to collide with the first
 					}
 					ops = append(ops, s.sendOp(ch0, u, t, amt, fee))
@@ -326,8 +328,15 @@ func (s *Spec) Ops(st *explore.State) []explore.Op {
 	if len(poolIDs) > 2 {
 		poolIDs = poolIDs[:2]
 	}
+	if focus && len(poolIDs) > 1 {
+		poolIDs = poolIDs[:1]
+	}
 	for _, id := range poolIDs {
 		r := m.Recs[id]
+		if focus {
+			ops = append(ops, s.cancelOp(id, r.Sender, false))
+			continue
+		}
 		ops = append(ops, s.cancelOp(id, r.Sender, false), s.cancelOp(id, "mallory", false), s.feeOp(id, r.Sender, false))
 		if s.EVM {
 			ops = append(ops, s.cancelOp(id, r.Sender, true), s.feeOp(id, r.Sender, true))
@@ -347,7 +356,9 @@ func (s *Spec) Ops(st *explore.State) []explore.Op {
 				hasPool = true
 			}
 		}
-		if hasPool {
+		if hasPool && focus {
+			ops = append(ops, s.batchOp(ch0, t, 0, 1))
+		} else if hasPool {
 			ops = append(ops, s.batchOp(ch0, t, 0, 1), s.batchOp(ch0, t, 2, 1), s.batchOp(ch0, t, 0, 1000))
 		}
 	}
